@@ -109,7 +109,10 @@ fn matched_quantities_with_split_ratio(
 ) -> (Decimal, Decimal) {
     let available_at_sell_time = available_at_buy_time / cumulative_ratio_effect;
     let matched_qty_at_sell_time = remaining_at_sell_time.min(available_at_sell_time);
-    let matched_qty_at_buy_time = matched_qty_at_sell_time * cumulative_ratio_effect;
+    // `x / ratio * ratio` can round a hair above `x` in 28-digit decimal arithmetic
+    // (0.02 / 3 * 3 = 0.0200000000000000000000000001): never claim more than is available
+    let matched_qty_at_buy_time =
+        (matched_qty_at_sell_time * cumulative_ratio_effect).min(available_at_buy_time);
 
     (matched_qty_at_sell_time, matched_qty_at_buy_time)
 }
